@@ -309,6 +309,42 @@ func c04Phase(c *vk.Ctx, r *rand.Rand, natTimeout time.Duration, expiry bool) bo
 		}
 		c.Count("unsolicited_delivered_to_owner_only", 1)
 	}
+	// two clients with the same link-local IP and port on different interfaces (they differ only
+	// by zone) are different client addresses: two associations, two outbound sockets
+	if a0, a1, err := lab.LinkLocal(); err == nil {
+		zport := 30000 + r.Intn(1000)
+		za, errA := net.ListenUDP("udp6", &net.UDPAddr{IP: net.ParseIP("fe80::c4"), Port: zport, Zone: "vlab0"})
+		zb, errB := net.ListenUDP("udp6", &net.UDPAddr{IP: net.ParseIP("fe80::c4"), Port: zport, Zone: "vlab1"})
+		if errA == nil && errB == nil {
+			kz := keys[r.Intn(len(keys))] // the same access key for both
+			tgt := w.targets[0]
+			idA, idB := nextID(c.Batch), nextID(c.Batch)
+			za.WriteToUDP(ssUDP(kz, randBytes(r, kz.Codec().C.SaltSize), tgt.addr(), mkUDPPayload(idA, 0, 0, 24)), &net.UDPAddr{IP: a1.IP, Zone: "vlab0", Port: w.rig.Port})
+			zb.WriteToUDP(ssUDP(kz, randBytes(r, kz.Codec().C.SaltSize), tgt.addr(), mkUDPPayload(idB, 0, 0, 24)), &net.UDPAddr{IP: a0.IP, Zone: "vlab1", Port: w.rig.Port})
+			gA, okA := tgt.waitID(idA, udpB)
+			gB, okB := tgt.waitID(idB, udpB)
+			c.Eval("zoned-clients|same-ip-and-port|different-interface")
+			if !okA || !okB {
+				c.Violation("C04/valid-datagram-not-forwarded", map[string]any{"clients": "zoned link-local pair", "a": okA, "b": okB})
+				return false
+			}
+			_, pA, _ := net.SplitHostPort(gA.From)
+			_, pB, _ := net.SplitHostPort(gB.From)
+			if pA == pB {
+				c.Violation("C04/two-clients-share-an-outbound-address", map[string]any{"outbound_port": pA, "clients": []string{za.LocalAddr().String(), zb.LocalAddr().String()}})
+				return false
+			}
+			c.Count("zoned_client_pairs_separated", 1)
+		} else {
+			c.Note("zoned client pair could not be bound: %v %v", errA, errB)
+		}
+		if za != nil {
+			za.Close()
+		}
+		if zb != nil {
+			zb.Close()
+		}
+	}
 	c.Count("stable_phases", 1)
 	c.Count("max_concurrent_associations", int64(len(owner)))
 	c.Eval(fmt.Sprintf("phase|stable|clients=%d|unsolicited=%d", M, len(probes)))
@@ -442,6 +478,7 @@ func init() {
 			c.Require("unsolicited_delivered_to_owner_only")
 			c.Require("no_association_for_rejected_first_datagram")
 			c.Require("process_interleaved_replies_delivered")
+			c.Require("zoned_client_pairs_separated")
 			c04Run(c)
 		},
 	})
